@@ -345,7 +345,11 @@ func check(args []string) int {
 			retry = append(retry, o)
 		}
 	}
+	secondPass := []string{}
 	if len(retry) > 0 && len(retry) <= 30 {
+		for _, o := range retry {
+			secondPass = append(secondPass, o.Name)
+		}
 		cfg2 := *cfg
 		cfg2.Timeout = cfg.Timeout * 4
 		cfg2.Parallel = 5
@@ -493,6 +497,8 @@ func check(args []string) int {
 				"solver_ms_total":          solverMs,
 				"known_finding_obligations": knownObls,
 				"per_obligation_timeout_s": cfg.Timeout.Seconds(),
+				"slowest":                  slowest(obls, 8),
+				"second_pass":              secondPass,
 			},
 			"assumptions": assumptions,
 		}
@@ -546,4 +552,15 @@ func isDisciplineObligation(name string) bool {
 		}
 	}
 	return false
+}
+
+// slowest lists the n obligations that took the most solver time (margin to the timeout, visible per run).
+func slowest(obls []*vc.Obligation, n int) []map[string]any {
+	cp := append([]*vc.Obligation{}, obls...)
+	sort.Slice(cp, func(i, j int) bool { return cp[i].Ms > cp[j].Ms })
+	var out []map[string]any
+	for i := 0; i < n && i < len(cp); i++ {
+		out = append(out, map[string]any{"obligation": cp[i].Name, "ms": cp[i].Ms, "result": cp[i].Result, "solver": cp[i].Solver})
+	}
+	return out
 }
